@@ -459,7 +459,9 @@ pub fn cli_roundtrip(rt: &tokio::runtime::Runtime, dir: &Path, case: &Case, agg:
 /// Library compress + judge (conformance + library clone) of one case.
 pub fn lib_roundtrip(rt: &tokio::runtime::Runtime, case: &Case, agg: &mut Agg, judge: Judge) {
     let detail = |extra: Value| json!({"writer": "library", "cfg": case.cfg.json(), "comp": format!("{:?}", case.comp), "hash_len": case.hash_len, "buffers": case.buffers, "source": hex(&case.source[..case.source.len().min(600)]), "source_len": case.source.len(), "extra": extra});
-    let r = catch(|| rt.block_on(lib_compress_fragmented(&case.cfg, &case.comp, case.hash_len, case.buffers, &case.source, 0)));
+    // the output takes whole buffers, 5 bytes or 1 byte per write call (rotating with the source length)
+    let sink_max = [0usize, 5, 1][case.source.len() % 3];
+    let r = catch(|| rt.block_on(lib_compress_sink(&case.cfg, &case.comp, case.hash_len, case.buffers, &case.source, 0, sink_max)));
     match r {
         Err(p) => agg.viol(&format!("panic@{}", panic_site(&p)), || detail(json!(p))),
         Ok(Err(e)) => agg.viol("valid-compress-failed", || detail(json!(e))),
